@@ -390,6 +390,7 @@ class Normaliser:
             tuple_len = self.tuple_containers.get(s0.func.value.attr)
         elem_subj: list[ast.expr] | None = None
         bool_elems: set[str] = set()
+        elem_tuple_len: dict[str, int] = {}
         if isinstance(subj, ast.Tuple) and not any(isinstance(x, ast.Starred) for x in subj.elts):
             # match (A, B): case (p, q): ...   -- the elements are matched one by one (evaluated once, in order)
             elem_subj = []
@@ -397,6 +398,10 @@ class Normaliser:
                 nm = f"match_h{i_}"
                 pre.append(ast.fix_missing_locations(ast.copy_location(ast.Assign(targets=[ast.Name(id=nm, ctx=ast.Store())], value=el), st)))
                 elem_subj.append(ast.Name(id=nm, ctx=ast.Load()))
+                if isinstance(el, ast.Call) and isinstance(el.func, ast.Attribute) and el.func.attr in ("get", "pop") and isinstance(el.func.value, ast.Attribute) \
+                        and (len(el.args) == 1 and el.func.attr == "get" or (len(el.args) == 2 and isinstance(el.args[1], ast.Constant) and el.args[1].value is None)) \
+                        and el.func.value.attr in self.tuple_containers:
+                    elem_tuple_len[nm] = self.tuple_containers[el.func.value.attr]
                 if isinstance(el, (ast.Compare, ast.BoolOp)) or (isinstance(el, ast.UnaryOp) and isinstance(el.op, ast.Not)) or \
                         (isinstance(el, ast.Call) and isinstance(el.func, ast.Attribute) and el.func.attr in ("is_set", "isclosed", "startswith", "endswith", "isdigit")) or \
                         (isinstance(el, ast.Call) and isinstance(el.func, ast.Name) and el.func.id in ("isinstance", "bool", "callable", "hasattr")):
@@ -451,7 +456,8 @@ class Normaliser:
             if elem_subj is not None and s_ is subj and not (isinstance(p_, ast.MatchAs) and p_.pattern is None and p_.name is None):
                 return None   # a tuple subject matched by something else than sequences / the wildcard: left alone
             if isinstance(p_, ast.MatchSequence) and not any(isinstance(x, ast.MatchStar) for x in p_.patterns):
-                if s_ is subj and tuple_len is not None and tuple_len == len(p_.patterns):
+                if (s_ is subj and tuple_len is not None and tuple_len == len(p_.patterns)) or \
+                        (isinstance(s_, ast.Name) and elem_tuple_len.get(s_.id) == len(p_.patterns)):
                     # the subject is an entry of a table that only ever holds tuples of this length (or the None default of
                     # .get/.pop): "is a sequence of length n" is "is not None"
                     tests = [ast.Compare(left=copy.deepcopy(s_), ops=[ast.IsNot()], comparators=[ast.Constant(value=None)])]
